@@ -62,6 +62,7 @@ SANS = {
     "ip4": {"dns": [], "ip": ["10.0.0.5"]},
     "ip6": {"dns": [], "ip": ["fd00::5"]},
     "cnonly": {"dns": [], "ip": []},
+    "ipdns4": {"dns": ["10.0.0.5"], "ip": []},  # the address as text in a dNSName entry: covers nothing
     "any": {"dns": ["origin.test", "a.test", "b.test", "c.test", "h.test", "proxy.test", "*.wild.test", "xn--bcher-kva.test", "example.test"], "ip": ["10.0.0.5", "10.0.0.6", "fd00::5", "fe80::1"]},
 }
 
@@ -95,7 +96,7 @@ def fp(cert: str, algo: str) -> str:
 def gen(rng):
     path = rng.choice(["direct"] * 6 + ["tunnel"] * 2 + ["tunnel_tlsproxy"])
     hostk = rng.choice(list(HOSTS))
-    shape = rng.choice(["origin", "origin", "any", "wild", "other", "ip4", "ip6", "cnonly", "any"])
+    shape = rng.choice(["origin", "origin", "any", "wild", "other", "ip4", "ip6", "cnonly", "any", "ipdns4"])
     cell = {
         "path": path,
         "host": hostk,
